@@ -44,6 +44,13 @@ pub open spec fn certificate_msg_post<'a>(i: &'a [u8], r: IResult<&'a [u8], TlsM
         Err(e) => certificate_post(i, Err::<(&[u8], TlsCertificateContents), Err<Error<&[u8]>>>(e)),
     }
 }
+pub open spec fn dtls_certificate_post<'a>(i: &'a [u8], r: IResult<&'a [u8], DTLSMessageHandshakeBody<'a>>) -> bool {
+    match r {
+        Ok((rem, DTLSMessageHandshakeBody::Certificate(c))) => certificate_post(i, Ok::<(&[u8], TlsCertificateContents), Err<Error<&[u8]>>>((rem, c))),
+        Ok(_) => false,
+        Err(e) => certificate_post(i, Err::<(&[u8], TlsCertificateContents), Err<Error<&[u8]>>>(e)),
+    }
+}
 '''
 
 UNIT = {
@@ -74,6 +81,12 @@ UNIT = {
              (r"TlsMessageHandshake::Certificate\)\(i\)", "|x: TlsCertificateContents<'a>| -> (y: TlsMessageHandshake<'a>) ensures y == TlsMessageHandshake::Certificate(x) { TlsMessageHandshake::Certificate(x) })(i)"),
          ],
          "contract": "    ensures certificate_msg_post(i, r),"},
+        {"file": "src/dtls.rs", "kind": "fn", "name": "parse_dtls_handshake_msg_certificate",
+         "subst": [
+             (r"^fn parse_dtls_handshake_msg_certificate\(i: &\[u8\]\) -> IResult<&\[u8\], DTLSMessageHandshakeBody>", "pub fn parse_dtls_handshake_msg_certificate<'a>(i: &'a [u8]) -> IResult<&'a [u8], DTLSMessageHandshakeBody<'a>>"),
+             (r"DTLSMessageHandshakeBody::Certificate\)\(i\)", "|x: TlsCertificateContents<'a>| -> (y: DTLSMessageHandshakeBody<'a>) ensures y == DTLSMessageHandshakeBody::Certificate(x) { DTLSMessageHandshakeBody::Certificate(x) })(i)"),
+         ],
+         "contract": "    ensures dtls_certificate_post(i, r),"},
     ],
     "epilogue": "",
 }
